@@ -122,6 +122,6 @@ def r_project_rule(ck: Checker) -> None:
 
 
 RULES = [
-    Rule("C16.B.good-split", P, r_good_split),
+    Rule("C16.B.good-split", P, r_good_split, extra={"C03": ("'positive atom'",)}),  # C03: is_predicate() must come first, a conditional literal has no .sign
     Rule("C16.B.project-rule", P + ("C07",), r_project_rule),
 ]
